@@ -1,4 +1,6 @@
 """C27 Status agrees with git status (Repo.tla rule table replayed on real repositories)."""
+import json
+import vlib
 from checks import repo_common
 
 LEVEL = "model_checking"
@@ -6,11 +8,35 @@ MANIFEST = {
     "engine": "tlc Repo rule table + vh repo C27",
     "technique": "explicit TLA+ three-tree specification (Repo.tla) enumerated exhaustively by TLC over bounded universes; every row is materialised as a real repository and worktree, the go-git operation is run and the projected post-state compared with the specification's allowed outcome",
     "text": "Worktree.Status() per path equals the porcelain XY code the specification derives from (HEAD tree, index, worktree); the derivation itself is checked against git status --porcelain on a sample (spec disagreeing with git = tooling error). Universes: one path with regular/executable/symlink entries (all 625 H/I/W/T combinations), a directory/file conflict pair, two independent paths.",
+    "text2": "core.autocrlf leg: StatusEOL.tla rule table (autocrlf true/input/false x worktree LF/CRLF x edited x line-ending layouts incl. a CR on, before and after multiples of 4096) with git status as witness on every row.",
     "note": "Bounded universes (<= 2 paths, 2 blob contents); submodules, sparse cones (C32) and linked worktrees (C33) are separate; the git leg is sampled within the process budget.",
 }
 ALL = ["reset-hard", "checkout-force", "checkout", "reset-merge", "reset-keep", "add", "add-all", "remove", "move", "clean", "commit"]
 
 
+EOL_CFG = """CONSTANTS AutoCRLF = {"true", "input", "false"}  WtEol = {"lf", "crlf"}
+ Layouts = {%s}
+INIT Init
+NEXT Next
+INVARIANTS LayoutIrrelevant EditReported LfCopyClean CrlfCleanIffConverting Emit
+CHECK_DEADLOCK FALSE
+"""
+
+
 def run(ctx):
     ops = ['status'] or ALL
     repo_common.run_prop(ctx, "C27", ["one-path-all-kinds", "dir-file-conflict"], ["one-path-all-kinds", "dir-file-conflict", "two-paths"], ops, 700)
+    # core.autocrlf leg: StatusEOL rule table (line-ending layouts x autocrlf x worktree line endings x edited)
+    layouts = ["small", "large", "cr@4094", "cr@4095", "cr@4096", "cr@8191"]
+    if ctx.thorough:
+        layouts += ["cr@12287", "cr@16383", "cr@32767", "cr@65535", "cr@8190", "cr@8192"]
+    r = ctx.tlc("StatusEOL", cfg_text=EOL_CFG % ", ".join('"%s"' % l for l in layouts), workers=1, timeout=600, dirname="tla-eol")
+    rows = ctx.printed_json(r)
+    if not rows:
+        raise vlib.ToolingError("StatusEOL produced no rows")
+    p = ctx.path("eol_rows.ndjson")
+    with open(p, "w") as f:
+        for row in rows:
+            f.write(json.dumps(row) + "\n")
+    ctx.vh("c27eol", [p], timeout=1800)
+    ctx.cov["autocrlf_rows"] = len(rows)
